@@ -137,7 +137,7 @@ theorem loads_cinvRC (cfg : Cfg) :
     have hg : gapCheck a c.id = false := hgap (c, rs) rfl
     have hst1 : (a.loaded c.id rs sm2).sm.st = st1 := k1
     have hl1 : (a.loaded c.id rs sm2).sm.log = l1 := k2
-    have hfs1 : (a.loaded c.id rs sm2).fs = a.fs := rfl
+    have hfs1 : (a.loaded c.id rs sm2).fs = a.fs.sync c.id := rfl
     have hcl1 : (a.loaded c.id rs sm2).sm.closed = a.sm.closed ++ [c] := by
       simp only [OpenAcc.loaded, k3.closed, OpenAcc.pre, hoffs, k1, ← g3]
     have hgap1 : ∀ q, rest.head? = some q → gapCheck (a.loaded c.id rs sm2) q.1.id = false := by
@@ -153,7 +153,11 @@ theorem loads_cinvRC (cfg : Cfg) :
         exact hch.1
     obtain ⟨a', m1, m2, m3, m4, m9, m10⟩ :=
       ih (a.loaded c.id rs sm2) st' l' (by rw [hst1, hl1]; exact g5)
-        (fun q hq => by rw [hfs1]; exact hfiles q (List.mem_cons_of_mem _ hq))
+        (fun q hq => by
+          rw [hfs1]
+          obtain ⟨f0, q1, q2, q3⟩ := hfiles q (List.mem_cons_of_mem _ hq)
+          obtain ⟨f', r1, r2, _⟩ := Fs.find_sync_some c.id q1
+          exact ⟨f', r1, r2.trans q2, q3⟩)
         (by simp only [List.map_cons] at hch; exact hch.tail) hgap1
         (k4.of_fieldsRC rfl rfl rfl) (k5.of_fields rfl rfl rfl)
     refine ⟨a', Loads.cons hg hf hd hwf hne hrep m1, m2, m3, ?_, ?_, m10⟩
@@ -171,7 +175,8 @@ holds for the reopened store**, whatever the new cache limits. -/
 theorem openStore_cacheInv (cfg : Cfg) {s : Store} {fs : Fs} {w : Worker} {r : RefLog}
     (h : RInv s fs w r) (hinf : ∀ id, w.inflight id = []) (hp : s.pending = [])
     (hlinked : fs.linkedIds = s.chunkIds) :
-    ∃ s', openStore cfg fs = (.ok (s', { files := [⟨s.openId, prevLastOf s.closed⟩] }), fs, []) ∧
+    ∃ s', openStore cfg fs = (.ok (s', { files := [⟨s.openId, prevLastOf s.closed⟩] }),
+        fs.syncAll s.chunkIds, syncEvs s.chunkIds) ∧
       CacheInv s' := by
   obtain ⟨jc, jo, g, gp, gr, hall, hfiles, hmapoffs, hmapids, hflat⟩ := h.load_data hinf hp
   obtain ⟨hd, tl, x, hhd, hx⟩ := allOps_head_state g
@@ -183,6 +188,8 @@ theorem openStore_cacheInv (cfg : Cfg) {s : Store} {fs : Fs} {w : Worker} {r : R
     loads_cinvRC cfg (jc ++ [(⟨s.openOffsets, s.st⟩, jo)]) { sm := emptyStore cfg, fs := fs } s.st s.log
       hall hfiles (by rw [hmapoffs]; exact h.j.chained) (fun p _ => rfl) (emptyStore_cinvRC cfg) hok
   obtain ⟨hfs', hevs'⟩ := m1.fs_evs
+  rw [hmapids] at hfs' hevs'
+  have hevs' : a'.evs = syncEvs s.chunkIds := by rw [hevs']; rfl
   have hloop : openLoop cfg fs.linkedIds { sm := emptyStore cfg, fs := fs } = (.ok a', a') := by
     rw [hlinked, ← hmapids]
     have := m1.openLoop_append []
